@@ -83,65 +83,79 @@ theorem popCtx_store (s : DeSt) (a : Nat) : (popCtx s a).store = s.store := by
 theorem pushCtx_store (s : DeSt) (k : Kind) (a : Nat) : (pushCtx s k a).store = s.store := by
   unfold pushCtx; split <;> rfl
 
-/-- A weak wrapper that reads a node (not an alias) succeeds only with a pointer that the store holds
-under the anchor id in scope, with the same `TypeId`. -/
+/-- the anchored case of a weak wrapper on a node `o` (not an alias) -/
+theorem weak_anchored_ok (live : Bool) (k : Kind) (tid : Nat) (o : Out) (s : DeSt) (v : RVal) (e : Out) (s' : DeSt)
+    (h : (match currentAnchorId (pushCtx s k o.rootAnchor) k with
+      | none => (Except.error DeErr.weakNoAnchor : DeRes)
+      | some id =>
+        match (if live then skipLive o (pushCtx s k o.rootAnchor) else .ok (o, pushCtx s k o.rootAnchor)) with
+        | .error e => .error e
+        | .ok (e, s2) =>
+          match getStored s2 k id tid with
+          | .error e => .error e
+          | .ok (some q) => .ok (.weak k q, e, popCtx s2 o.rootAnchor)
+          | .ok none =>
+            .error (if k.isRec then .weakUnknown else if reentrant s2 k id then .recNeedsWeak else .weakUnknown))
+        = .ok (v, e, s')) :
+    ∃ id q, currentAnchorId (pushCtx s k o.rootAnchor) k = some id ∧
+      s.store.lookup (k, id) = some (q, tid) ∧ v = .weak k q ∧ s'.store = s.store := by
+  split at h
+  · cases h
+  · rename_i id hid
+    split at h
+    · cases h
+    · rename_i e2 s2 hsk
+      have hst : s2.store = (pushCtx s k o.rootAnchor).store := by
+        cases live with
+        | false =>
+          simp only [Bool.false_eq_true, if_false, Except.ok.injEq, Prod.mk.injEq] at hsk
+          rw [← hsk.2]
+        | true =>
+          simp only [if_true] at hsk
+          exact (skipLive_sameStore _ _ _ _ hsk).2.1
+      split at h
+      · cases h
+      · rename_i q hq
+        simp only [Except.ok.injEq, Prod.mk.injEq] at h
+        obtain ⟨rfl, _, rfl⟩ := h
+        have := getStored_some _ _ _ _ _ hq
+        rw [hst, pushCtx_store] at this
+        exact ⟨id, q, hid, this, rfl, by rw [popCtx_store, hst, pushCtx_store]⟩
+      · cases h
+
+/-- A weak wrapper that reads a node (not an alias) succeeds in exactly two ways: the node is an
+unanchored `null` and the result is a dangling weak (state untouched), or the node is anchored and the
+result is the pointer that the store holds under that anchor id, with the same `TypeId`. -/
 theorem weak_node_ok (onAlias : Ty → Nat → DeSt → DeRes) (live : Bool) (k : Kind) (tid : Nat)
     (o : Out) (hna : ∀ id, o ≠ .alias id) (s : DeSt) (v : RVal) (e : Out) (s' : DeSt)
     (h : deCore onAlias live (.weak k tid) o s = .ok (v, e, s')) :
-    ∃ id q, currentAnchorId (pushCtx s k o.rootAnchor) k = some id ∧
-      s.store.lookup (k, id) = some (q, tid) ∧ v = .weak k q ∧ s'.store = s.store := by
+    (o.rootAnchor = 0 ∧ o.isNull = true ∧ v = .weakNull k ∧ e = o ∧ s' = s) ∨
+    (o.rootAnchor ≠ 0 ∧ ∃ id q, currentAnchorId (pushCtx s k o.rootAnchor) k = some id ∧
+      s.store.lookup (k, id) = some (q, tid) ∧ v = .weak k q ∧ s'.store = s.store) := by
   cases o with
   | alias id => exact absurd rfl (hna id)
   | leaf a lk =>
     simp only [deCore] at h
     split at h
-    · cases h
-    · rename_i id hid
+    · rename_i ha
       split at h
-      · cases h
-      · rename_i e2 s2 hsk
-        have hst : s2.store = (pushCtx s k (Out.leaf a lk).rootAnchor).store := by
-          cases live with
-          | false =>
-            simp only [Bool.false_eq_true, if_false, Except.ok.injEq, Prod.mk.injEq] at hsk
-            rw [← hsk.2]
-          | true =>
-            simp only [if_true] at hsk
-            exact (skipLive_sameStore _ _ _ _ hsk).2.1
-        split at h
-        · cases h
-        · rename_i q hq
-          simp only [Except.ok.injEq, Prod.mk.injEq] at h
-          obtain ⟨rfl, _, rfl⟩ := h
-          have := getStored_some _ _ _ _ _ hq
-          rw [hst, pushCtx_store] at this
-          exact ⟨id, q, hid, this, rfl, by rw [popCtx_store, hst, pushCtx_store]⟩
-        · cases h
+      · rename_i hn
+        simp only [Except.ok.injEq, Prod.mk.injEq] at h
+        obtain ⟨rfl, rfl, rfl⟩ := h
+        exact Or.inl ⟨ha, hn, rfl, rfl, rfl⟩
+      · split at h <;> cases h
+    · rename_i ha
+      exact Or.inr ⟨ha, weak_anchored_ok live k tid _ s v e s' h⟩
   | node a isMap items =>
     simp only [deCore] at h
     split at h
-    · cases h
-    · rename_i id hid
+    · rename_i ha
       split at h
-      · cases h
-      · rename_i e2 s2 hsk
-        have hst : s2.store = (pushCtx s k (Out.node a isMap items).rootAnchor).store := by
-          cases live with
-          | false =>
-            simp only [Bool.false_eq_true, if_false, Except.ok.injEq, Prod.mk.injEq] at hsk
-            rw [← hsk.2]
-          | true =>
-            simp only [if_true] at hsk
-            exact (skipLive_sameStore _ _ _ _ hsk).2.1
-        split at h
-        · cases h
-        · rename_i q hq
-          simp only [Except.ok.injEq, Prod.mk.injEq] at h
-          obtain ⟨rfl, _, rfl⟩ := h
-          have := getStored_some _ _ _ _ _ hq
-          rw [hst, pushCtx_store] at this
-          exact ⟨id, q, hid, this, rfl, by rw [popCtx_store, hst, pushCtx_store]⟩
-        · cases h
+      · rename_i hn
+        simp [Out.isNull] at hn
+      · split at h <;> cases h
+    · rename_i ha
+      exact Or.inr ⟨ha, weak_anchored_ok live k tid _ s v e s' h⟩
 
 /-- `current_anchor_id` right after entering the context of an anchored node is that node's id -/
 theorem current_after_push (s : DeSt) (k : Kind) (a : Nat) (ha : a ≠ 0) :
